@@ -24,6 +24,10 @@ pub use hints::{
     RequiredProperty, ResolveEdgeInfo, ResolveInfo, VertexInfo,
 };
 
+#[cfg(feature = "__verif")]
+#[doc(hidden)]
+pub use filtering::verif as verif_filtering;
+
 /// An iterator of vertices representing data points we are querying.
 pub type VertexIterator<'vertex, VertexT> = Box<dyn Iterator<Item = VertexT> + 'vertex>;
 
